@@ -34,9 +34,10 @@ structure Measurements where
 
 def BitsPerLeaf : Nat := 64
 
-/-- `IdSetMeasurements::IdSetMeasurements` -/
+/-- `IdSetMeasurements::IdSetMeasurements`. `capacity + (BitsPerLeaf-1)` is computed in `uint32_t` and wraps for capacities
+above `2^32 - 64` (the tree is then far too small: `PageStackInit.measure_wraps`); all theorems assume `cap + 63 < 2^32`. -/
 def measure (cap : Nat) : Measurements :=
-  let req := (cap + (BitsPerLeaf - 1)) / BitsPerLeaf
+  let req := ((cap + (BitsPerLeaf - 1)) % 4294967296) / BitsPerLeaf
   let r := growLeaves 32 req 2 (1 + 1)
   { capacity := cap, requestedLeafNodeCount := req, treeHeight := r.2, leafNodeCount := r.1, innerLevelCount := r.2 - 1 }
 
@@ -201,20 +202,39 @@ def act (H : Nat) (s : Sh) (t : Th) : Sh × Th × Ev × Option Res :=
 
 /-! ### initial states -/
 
-/-- number of ids `< cap` in `[lo, hi)` -/
-def rangeCount (cap lo hi : Nat) : Nat := min cap hi - min cap lo
+/-- number of nodes at `level` whose id range starts below `cap` ("live" nodes): `ceil(cap/64)` leaves, and a parent is live
+iff its left child is. Nodes beyond are never visited (`Inv.wf`); `makeFullBeforeSharing` leaves stale values in them. -/
+def halfUp : Nat → Nat → Nat
+  | 0, n => n
+  | k + 1, n => (halfUp k n + 1) / 2
 
-/-- number of ids below a node at `level` of a tree with `H` inner levels -/
-def width (H level : Nat) : Nat := BitsPerLeaf * 2 ^ (H - level)
+def liveCount (cap H : Nat) (level : Nat) : Nat := halfUp (H - level) ((cap + (BitsPerLeaf - 1)) / BitsPerLeaf)
 
-/-- what `makeFullBeforeSharing` leaves in the tree: every id `< cap` available, counters = exact subtree totals -/
-def fullLeaf (cap o : Nat) : Nat := 2 ^ (rangeCount cap (o * BitsPerLeaf) ((o + 1) * BitsPerLeaf)) - 1
+/-- number of ids `< cap` below the node at offset `o` of the level that is `k` levels above the leaves -/
+def fullTotal (cap : Nat) : Nat → Nat → Nat
+  | 0, o => min BitsPerLeaf (cap - o * BitsPerLeaf)
+  | k + 1, o => fullTotal cap k (2 * o) + fullTotal cap k (2 * o + 1)
 
-def fullTotal (cap H l o : Nat) : Nat := rangeCount cap (o * width H l) ((o + 1) * width H l)
+/-- what `makeFullBeforeSharing` leaves in the leaves: every id `< cap` available. The leaves wholly beyond `cap` are zeroed by
+`truncateExtras` except the last one when `cap` is not a multiple of 64 (its `fill_n(…, rightLeaves-1, 0)` stops one short;
+the stale bits are unreachable because every counter above them is 0). For `cap % 64 = 0` the first unused leaf is meant to
+become 0 via `node >>= 64`, which is undefined behaviour in C++ (`fullUB`); the closed form follows the documented intent. -/
+def fullLeaf (cap H o : Nat) : Nat :=
+  if o * BitsPerLeaf < cap then 2 ^ (fullTotal cap 0 o) - 1
+  else if cap % BitsPerLeaf ≠ 0 ∧ o + 1 = 2 ^ H then 2 ^ 64 - 1
+  else 0
 
-def fullInner (cap H l o : Nat) : Nat × Nat := (fullTotal cap H (l + 1) (2 * o), fullTotal cap H (l + 1) (2 * o + 1))
+/-- `truncateExtras` runs and calls `leafTruncate(pos, 0)`, i.e. shifts a 64-bit word by 64 -/
+def fullUB (cap H : Nat) : Bool := cap % BitsPerLeaf = 0 && cap != 2 ^ H * BitsPerLeaf
 
-def Sh.full (cap H : Nat) : Sh := { size := cap, inner := fullInner cap H, leaf := fullLeaf cap }
+/-- inner nodes after `makeFullBeforeSharing`: exact subtree totals in live nodes. Dead nodes keep what `fillAllNodes` wrote
+(`truncateExtras` only walks up from the first truncated leaf), except those on that walk, which become (0,0). -/
+def fullInner (cap H l o : Nat) : Nat × Nat :=
+  if o < liveCount cap H l then (fullTotal cap (H - l - 1) (2 * o), fullTotal cap (H - l - 1) (2 * o + 1))
+  else if cap % BitsPerLeaf = 0 ∧ o = (cap / BitsPerLeaf) / 2 ^ (H - l) then (0, 0)
+  else (BitsPerLeaf / 2 * 2 ^ (H - l), BitsPerLeaf / 2 * 2 ^ (H - l))
+
+def Sh.full (cap H : Nat) : Sh := { size := cap, inner := fullInner cap H, leaf := fullLeaf cap H }
 
 /-- a stack constructed with `createFull = false` in zeroed memory -/
 def Sh.empty : Sh := { size := 0, inner := fun _ _ => (0, 0), leaf := fun _ => 0 }
